@@ -343,6 +343,49 @@ def body_sweep(case):
     return labels
 
 
+def _two_batch_cases(tier):
+    import os
+
+    seed = int(os.environ.get("VERIF_SEED", "1") or "1")
+    for det, dtype in ([(525.0, "float32")] if tier == "quick" else [(525.0, "float32"), (33.0, "float32"), (2000.0, "float64")]):
+        for k0 in range(0, 1280, 80):
+            yield {"det": det, "dtype": dtype, "k0": k0, "k1": k0 + 80, "step": 20 if tier == "quick" else 5, "phase": seed % 20 if tier == "quick" else 0}
+
+
+def body_two_batches(case):
+    """Two BATCH calls on one kernel object (two user threads sharing it), each with its own cloud model, under the nested
+    and the non-nested harness-owned schedule: every batch equals its one-at-a-time evaluation under ITS cloud model.
+    Finds per-batch values parked on the object with save / restore."""
+    import dask
+
+    from ..interleave import check_two_switches, sweep_overlapping
+
+    det, dtype = case["det"], case["dtype"]
+    k = kernel(det, dtype)
+    beta = np.array([POOL_BETA[2], POOL_BETA[3]])
+    alt = np.array([1.0, 2.0])
+    E1, E2 = np.array([energy(1.0), energy(2.5)]), np.array([energy(0.3), energy(3.1)])
+    lat, lon = np.array([0.0, 1.0]), np.array([0.0, -1.0])
+    deck_a = lambda la, lo: 3.0  # noqa: E731 - a low deck
+    deck_b = lambda la, lo: 100.0  # noqa: E731 - everything hidden
+
+    def batch(E_, cloudf):
+        with quiet():
+            d_, c_ = k(beta, alt, E_, lat, lon, cloudf)
+        return [np.asarray(d_), np.asarray(c_)]
+
+    with dask.config.set(scheduler="synchronous"):
+        fa, fb = (lambda: batch(E1, deck_a)), (lambda: batch(E2, deck_b))
+        what = f"two batch calls on one kernel object with different cloud models (detector {det} km, {dtype})"
+        ks = list(range(case["k0"] + case.get("phase", 0), case["k1"], case["step"]))
+        hits = 0
+        for k1 in ks:
+            hits += sweep_overlapping(fa, fb, k1, k1 + 1, what)
+        pairs = [(k1, k2) for k1 in ks for k2 in (3, 40, 200, 500, -40, -4)]
+        hits += check_two_switches(fa, fb, pairs, what)
+    return {"two_batches"} | ({"preempted"} if hits else set())
+
+
 def batch_strategy(max_n, scheds):
     return st.fixed_dictionaries(
         {
@@ -408,6 +451,15 @@ SUBCHECKS = [
         {"quick": 1},
         doc="EVERY pre-emption point (0..639 package lines) of the first partition of one small batch under the harness-owned two-worker scheduler, for 2 (thorough: 4) kernel configurations, shared and distinct sites; enumerated in chunks dealt to the worker processes",
         exhaustive=_sweep_cases,
+    ),
+    SubCheck(
+        "two_batches_one_kernel",
+        None,
+        body_two_batches,
+        lambda labels: "preempted" in labels,
+        {"quick": 1},
+        doc="two batch calls with different cloud models on ONE kernel object under the nested and the non-nested (two-switch) harness-owned schedules; suspension points of the first call every 20 lines (quick; phase by VERIF_SEED) / 5 lines (thorough), six suspension points of the second call each",
+        exhaustive=_two_batch_cases,
     ),
     SubCheck(
         "threads",
